@@ -20,7 +20,11 @@ from sim.history import Recorder, digest_of
 PROPERTY = "C01"
 RUN_TIMEOUT_S = 900
 
-K_TOL = 10.0  # |error| <= K_TOL * (atol + rtol |u|); calibrated on the repaired tree (see DESIGN.md §3 C01)
+# |error| <= K * (atol + rtol |u|).  Calibrated on the repaired tree (1 600-scenario batch, DESIGN.md §3 C01):
+# first-order problems, regular histories: largest ratio 2.4; second-order formulations: 8.1.
+K_TOL = 12.0
+K_TOL_SECOND_ORDER = 50.0
+TINY = 5e-2  # an accepted step below this fraction of its predecessor puts the run into the stress class
 ORDER_SLACK = 1.0
 MAX_ATTEMPTS = 600
 
@@ -190,12 +194,14 @@ def exec_adaptive(sc):
                 v["inv"] = "TOL-finite-dynamic-zero-residual"
             viol.append(v)
             break
-        if ratio > K_TOL:
-            # finding predicate: zeroth-order linearisation and an accepted step much smaller than its predecessor
-            # (tiny clipped remainder or post-burst step) precedes the failing output
-            tiny = [i2 for i2, (tt, hh) in enumerate(acc[1:], start=1) if ratios[i2 - 1] < 1e-2 and tt + hh <= t + eps + hh]
+        if ratio > (K_TOL if cfg["order"] == 1 else K_TOL_SECOND_ORDER):
+            # finding predicate: an accepted step much smaller than its predecessor (tiny clipped remainder or
+            # post-burst step) -- before the failing output for filters with zeroth-order linearisation, anywhere
+            # in the history for smoothers (the backward pass carries it to earlier outputs)
+            tiny_before = [i2 for i2, (tt, hh) in enumerate(acc[1:], start=1) if ratios[i2 - 1] < TINY and tt <= t + eps]
+            tiny_any = bool(ratios) and min(ratios) < TINY
             v = {"inv": "TOL", "msg": f"error at t={t:.6g} is {ratio:.1f} x (atol + rtol|u|) (atol={sc['atol']:.1e}, rtol={sc['rtol']:.1e}; {len(acc)} steps, min step ratio {min(ratios) if ratios else 1:.1e})"}
-            if cfg["lin"] == "ts0" and tiny:
+            if (cfg["lin"] == "ts0" and tiny_before) or (cfg["strategy"] != "filter" and tiny_any):
                 v["finding"] = "KF-C01-tiny-step"
                 v["inv"] = "TOL-tiny-step"
             viol.append(v)
@@ -203,6 +209,7 @@ def exec_adaptive(sc):
     stats["worst_ratio"] = worst
     stats["min_step_ratio"] = min(ratios) if ratios else 1.0
     probes["clipped_or_burst_step_ratio_below_1e-2"] = int(bool(ratios) and min(ratios) < 1e-2)
+    probes["stress_class_step_ratio_below_5e-2"] = int(bool(ratios) and min(ratios) < TINY)
     probes["checkpoints"] = len(cps) if driver == "save_at" else 0
     probes["dt0_from_helper"] = int(sc["dt0"]["kind"] != "abs")
     probes["atol_ne_rtol"] = int(sc["atol"] != sc["rtol"])
@@ -267,6 +274,10 @@ def exec_fixed(sc):
         if cfg["calib"] == "dynamic" and q >= 5:
             v["finding"] = "KF-C01-dynamic-highorder-fixed-grid"
             v["inv"] = "ORDER-dynamic-highorder"
+        elif cfg["strategy"] != "filter" and q >= 6:
+            # the backward pass at q >= 6 amplifies rounding (C03 sees the same in the covariances)
+            v["finding"] = "KF-C01-smoother-q6-rounding"
+            v["inv"] = "ORDER-smoother-q6"
         viol.append(v)
     return viol, [], stats
 
